@@ -9,14 +9,19 @@ ROOT = os.path.dirname(os.path.dirname(os.path.abspath(__file__)))
 REPO = os.environ.get("VERIF_REPO", "/repo")
 SRC = os.path.join(REPO, "src")
 OUT = os.path.join(ROOT, "lean", "CambrianModel", "Model", "Generated.lean")
-broken = []
+broken = []   # (properties concerned | "*", message)
+CUR = ["*"]
+
+
+def brk(msg, props=None):
+    broken.append((props or CUR[0], msg))
 
 
 def read(name):
     try:
         return open(os.path.join(SRC, name)).read()
     except OSError:
-        broken.append("source file missing: " + name)
+        brk("source file missing: " + name, "*")
         return ""
 
 
@@ -57,10 +62,10 @@ def strip_tests(src):
     return src
 
 
-def find(pattern, text, what, default=None, flags=re.S):
+def find(pattern, text, what, default=None, flags=re.S, props="*"):
     m = re.search(pattern, text, flags)
     if not m:
-        broken.append("anchor lost: " + what)
+        brk("anchor lost: " + what, props)
         return default
     return m.group(1)
 
@@ -72,20 +77,20 @@ spec_util = read("spec_util.rs")
 meta_adapt = read("meta_adapt.rs")
 detailed = read("detailed_report.rs")
 
-max_pop = find(r"const STATIC_PARAMS[^;]*?max_pop_size:\s*(\d+)", algorithm, "STATIC_PARAMS.max_pop_size", "100")
-min_reeval = find(r"const STATIC_PARAMS[^;]*?min_pop_size_for_reeval:\s*(\d+)", algorithm, "STATIC_PARAMS.min_pop_size_for_reeval", "20")
-chan = find(r"const CHANNEL_BUF_SIZE:\s*usize\s*=\s*(\d+)", sync_launch, "CHANNEL_BUF_SIZE", "256")
-bcap = find(r"async_broadcast::broadcast::<\(\)>\((\d+)\)", controller, "abort broadcast capacity", "1")
-floor = find(r"META_PARAMS_MUTATION_RESCALE_FLOOR:\s*f64\s*=\s*([0-9.e+-]+)", meta_adapt, "RESCALE_FLOOR", "1e-12")
-ceil = find(r"META_PARAMS_MUTATION_RESCALE_CEIL:\s*f64\s*=\s*([0-9.e+-]+)", meta_adapt, "RESCALE_CEIL", "1e12")
+max_pop = find(r"const STATIC_PARAMS[^;]*?max_pop_size:\s*(\d+)", algorithm, "STATIC_PARAMS.max_pop_size", "100", props="C02,C08,C05,C14")
+min_reeval = find(r"const STATIC_PARAMS[^;]*?min_pop_size_for_reeval:\s*(\d+)", algorithm, "STATIC_PARAMS.min_pop_size_for_reeval", "20", props="C02,C08,C05")
+chan = find(r"const CHANNEL_BUF_SIZE:\s*usize\s*=\s*(\d+)", sync_launch, "CHANNEL_BUF_SIZE", "256", props="C14")
+bcap = find(r"async_broadcast::broadcast::<\(\)>\((\d+)\)", controller, "abort broadcast capacity", "1", props="C04,C15")
+floor = find(r"META_PARAMS_MUTATION_RESCALE_FLOOR:\s*f64\s*=\s*([0-9.e+-]+)", meta_adapt, "RESCALE_FLOOR", "1e-12", props="C14,C15")
+ceil = find(r"META_PARAMS_MUTATION_RESCALE_CEIL:\s*f64\s*=\s*([0-9.e+-]+)", meta_adapt, "RESCALE_CEIL", "1e12", props="C14,C15")
 
-builtins = find(r"const BUILT_IN_TYPE_NAMES:[^=]*=\s*&\[(.*?)\];", spec_util, "BUILT_IN_TYPE_NAMES", "")
+builtins = find(r"const BUILT_IN_TYPE_NAMES:[^=]*=\s*&\[(.*?)\];", spec_util, "BUILT_IN_TYPE_NAMES", "", props="C10")
 builtins = re.findall(r'"([^"]*)"', builtins or "")
 
 
 def whitelist(fn):
-    body = find(r"fn %s\(.*?\{(.*?)\n\}" % fn, spec_util, "fn " + fn, "")
-    wl = find(r"check_for_unexpected_attributes\(\s*mapping,\s*\[(.*?)\]", body or "", "whitelist of " + fn, "")
+    body = find(r"fn %s\(.*?\{(.*?)\n\}" % fn, spec_util, "fn " + fn, "", props="C10")
+    wl = find(r"check_for_unexpected_attributes\(\s*mapping,\s*\[(.*?)\]", body or "", "whitelist of " + fn, "", props="C10")
     return re.findall(r'"([^"]*)"', wl or "")
 
 
@@ -94,20 +99,20 @@ wl = {k: whitelist(f) for k, f in [("real", "build_real"), ("int", "build_int"),
                                    ("optional", "build_optional"), ("const", "build_const")]}
 
 # the two passes of build_sub must test the same prefix for type definitions
-sub_body = find(r"fn build_sub\(.*?\{(.*?)\n\}", spec_util, "fn build_sub", "")
+sub_body = find(r"fn build_sub\(.*?\{(.*?)\n\}", spec_util, "fn build_sub", "", props="C10")
 prefixes = re.findall(r'starts_with\("([^"]*)"\)', sub_body or "")
 if len(prefixes) < 2:
-    broken.append("anchor lost: typeDef prefix tests of build_sub")
+    brk("anchor lost: typeDef prefix tests of build_sub", "C10")
 def_prefix = prefixes[0] if prefixes else "typeDef "
 member_prefix = prefixes[-1] if prefixes else "typeDef "
 
 # select! branch guards of the controller loop
-loop_body = find(r"loop \{\s*tokio::select! \{(.*?)\n    \}\n", controller, "controller select! loop", "")
+loop_body = find(r"loop \{\s*tokio::select! \{(.*?)\n    \}\n", controller, "controller select! loop", "", props="C04,C15")
 abort_guard = bool(re.search(r"in_abort_signal_recv\s*,\s*if\s*!\s*abort_signal_received\s*=>", loop_body or ""))
 completion_guard = bool(re.search(r"evaled_individuals\.try_next\(\)\s*,\s*if\b", loop_body or ""))
 n_branches = len(re.findall(r"=>\s*\{", (loop_body or "").split("match evaled_individual")[0])) + 1 if loop_body else 0
 
-csv_header = find(r'fn get_csv_header_row\(\)[^{]*\{\s*"(.*?)"', detailed, "csv header", "")
+csv_header = find(r'fn get_csv_header_row\(\)[^{]*\{\s*"(.*?)"', detailed, "csv header", "", props="C14")
 csv_header = (csv_header or "").replace("\\n", "\n")
 
 
@@ -164,23 +169,28 @@ if gen != old:
 # ------------------------------------------------------------------------------------------------ lints
 # L2 determinism: no per-process randomness in decision paths
 for name in sorted(os.listdir(SRC)) if os.path.isdir(SRC) else []:
-    if not name.endswith(".rs"):
+    if not name.endswith(".rs") or name == "verif_hooks.rs":
         continue
     body = strip_tests(read(name))
-    for bad in ["thread_rng", "from_entropy", "RandomState", "std::collections::HashMap", "std::collections::HashSet", "SystemTime"]:
+    for bad in ["thread_rng", "from_entropy", "RandomState", "std::collections::HashMap", "std::collections::HashSet", "SystemTime",
+                "static mut", "thread_local!", "AtomicU", "AtomicI", "AtomicBool", "OnceCell", "OnceLock", "getrandom", "OsRng", "process::id"]:
         if bad in body:
-            broken.append("lint L2 (determinism): `%s` used in src/%s" % (bad, name))
+            brk("lint L2 (determinism): `%s` used in src/%s" % (bad, name), "C09")
+    # the only lazy_static of the crate is the constant COIN_FLIP distribution
+    for m in re.finditer(r"static ref (\w+)", body):
+        if m.group(1) != "COIN_FLIP":
+            brk("lint L2 (determinism): global `static ref %s` in src/%s" % (m.group(1), name), "C09")
 # L3 rescaling factors are only ever assigned under cfg(test)
 for name in ["mutation.rs", "crossover.rs", "path.rs", "algorithm.rs", "rescaling.rs", "controller.rs"]:
     body = strip_tests(read(name))
     if re.search(r"current_rescaling\s*=[^=]|_factor\s*=[^=]|_factor:\s*(?!1\.0)[0-9]", body) and name != "rescaling.rs":
-        broken.append("lint L3 (rescaling factors constant 1.0): assignment in src/%s" % name)
+        brk("lint L3 (rescaling factors constant 1.0): assignment in src/%s" % name, "C01,C12,C13,C17")
 resc = strip_tests(read("rescaling.rs"))
 if re.findall(r"_factor:\s*([0-9.]+)", resc) != ["1.0"] * 4:
-    broken.append("lint L3 (rescaling factors constant 1.0): defaults in src/rescaling.rs are not all 1.0")
+    brk("lint L3 (rescaling factors constant 1.0): defaults in src/rescaling.rs are not all 1.0", "C01,C12,C13,C17")
 # L4 the abort broadcast has exactly the two send sites that are modelled
 if len(re.findall(r"abort_signal_sender\.broadcast\(", strip_tests(controller))) != 2:
-    broken.append("lint L4: abort broadcast send sites in controller.rs != 2")
+    brk("lint L4: abort broadcast send sites in controller.rs != 2", "C04,C06")
 
 # L1 panic-site inventory: compared with the committed expectation
 sites = {}
@@ -198,17 +208,17 @@ try:
     if n:
         sites["bin/cambrian.rs"] = n
 except OSError:
-    broken.append("source file missing: bin/cambrian.rs")
+    brk("source file missing: bin/cambrian.rs", "*")
 exp_path = os.path.join(ROOT, "tools", "expected_sites.json")
 if os.path.exists(exp_path):
     exp = json.load(open(exp_path))
     for f in sorted(set(exp) | set(sites)):
         if sites.get(f, 0) > exp.get(f, 0):
-            broken.append("lint L1 (panic sites): src/%s has %d unwrap/expect/unreachable/panic sites, inventory covers %d" % (f, sites.get(f, 0), exp.get(f, 0)))
+            brk("lint L1 (panic sites): src/%s has %d unwrap/expect/unreachable/panic sites, inventory covers %d" % (f, sites.get(f, 0), exp.get(f, 0)), "C15")
 if "--write-sites" in sys.argv:
     json.dump(sites, open(exp_path, "w"), indent=1, sort_keys=True)
 
-for b in broken:
-    print("TIE-BROKEN " + b)
+for props, b in broken:
+    print("TIE-BROKEN [%s] %s" % (props, b))
 print(json.dumps({"generated": OUT, "sites": sites, "broken": len(broken)}))
 sys.exit(0)
